@@ -766,7 +766,15 @@ def multiband_case():
 def run(ctx):
     logging.disable(logging.CRITICAL)
     rng = ctx.rng
+    # second tie: re-translate the decision-carrying code of /repo (harness/pygen_c17.py); the equivalence lemmas of
+    # Proofs/RedesignGen.v are then re-checked by check_props against what the code says now
+    from . import pygen_c17
+    gen_ok, gen_msg = pygen_c17.regenerate()
     ctx.proof = common.check_props(PROP)
+    if not gen_ok:
+        ctx.proof['ok'] = False
+        ctx.proof['log'] = 'harness/pygen_c17.py: ' + gen_msg + '\n' + ctx.proof.get('log', '')
+        ctx.proof['failed_file'] = 'theories/Gen/RedesignGen.v (translation of /repo source failed)'
     ctx.rule = ('random topologies / Span configurations of C08 plus VOA margin / step, automatic output VOA, gain mode, '
                 'Raman spans behind operator-set amplifiers, SI power offsets, non-default SimParams; 1-3 export / reload / '
                 'redesign rounds compared export by export, design twice, SimParams vars() before / after; amplifier '
@@ -961,6 +969,7 @@ def run(ctx):
                            impl=impl, model=model)
     ctx.extra['t_simparams'] = round(time.time() - t0, 1)
     ctx.assumptions += [
+        'translator tie: harness/pygen_c17.py (fail-closed Python-ast -> Gallina, on harness/pygen.py; translated: Edfa.to_json (five operational values), Fiber.to_json (length, loss_coef, lumped-loss test), Roadm.to_json (design-band test), FiberParams property list, RamanParams / NLIParams defaults and to_json keys, sim_params of estimate_raman_gain; templates only for Multiband_amplifier / RamanFiber / Fused.to_json, Parameters.asdict, FiberParams.asdict, pmd_coef_defined, SimParams.set_params and the statement order of estimate_raman_gain (save, set, restore, cache only with a span power))',
         'span contexts (loss of the previous / next span) are computed by the model from the observed chain; the ROADM '
         'egress target, the selected amplifier variety (C10) and the estimated Raman gain are taken from the implementation',
         'multiband amplifiers and per-degree design bands are covered by the oracle only',
